@@ -24,12 +24,29 @@ def run_impl(case):
         # the init image may also be (re)assigned through the `init` property after construction
         init = [rnd.getrandbits(dw) for _ in range(depth)]
         dut.init = init
+    rnd2 = lib.rng_for(case["seed"], case["idx"], 1525)        # history variations, own stream
+    reassigned = 0
+    if rnd2.random() < 0.25:
+        # further assignments before elaboration: a shorter image (the rest is zero again), and/or
+        # an assignment that is refused (bad element) and must leave the previous image in place
+        if rnd2.random() < 0.6:
+            init = [rnd2.getrandbits(dw) for _ in range(rnd2.randint(0, depth - 1))]
+            dut.init = init
+            reassigned += 1
+        if rnd2.random() < 0.6:
+            bad = [rnd2.getrandbits(dw) for _ in range(depth)]
+            bad[rnd2.randrange(depth)] = "x"
+            try:
+                dut.init = bad
+                raise AssertionError("harness: bad image accepted")
+            except (TypeError, ValueError):
+                reassigned += 1
     mem0 = list(init) + [0] * (depth - len(init))
     lines = [f"case {depth} {dw} {gran} {int(writable)} " + " ".join(map(str, mem0))]
-    sim = Simulator(simutil.wrap(dut))
+    sim = simutil.simulator(simutil.wrap(dut), case)
     sim.add_clock(1e-6)
     obs, fails = [], []
-    stats = {"cycles": 0, "writes": 0, "reads": 0, "held_through_ack": 0, "partial_sel": 0, "readonly": int(not writable),
+    stats = {"cycles": 0, "writes": 0, "reads": 0, "held_through_ack": 0, "partial_sel": 0, "readonly": int(not writable), "init_reassigned": reassigned,
              "cyc_or_stb_alone": 0}
     style = rnd.choice(["random", "transfers", "transfers"])
     bus = dut.wb_bus
@@ -46,7 +63,7 @@ def run_impl(case):
             if style == "random" or cur is None or hold == 0:
                 cyc, stb = int(rnd.random() < .7), int(rnd.random() < .7)
                 we = rnd.getrandbits(1)
-                adr = rnd.getrandbits(aw) if aw else 0
+                adr = (rnd.getrandbits(aw) if aw else 0) % depth     # a word of the memory (the port may be wider than needed)
                 sel = rnd.getrandbits(lanes) if rnd.random() < .6 else (1 << lanes) - 1
                 datw = rnd.getrandbits(dw)
                 if style == "transfers":
